@@ -48,7 +48,7 @@ func (r ribout) update(p *table.Path) bool {
 		}
 		n := make([]*table.Path, 0, len(l))
 		for _, q := range l {
-			if p.GetSource() == q.GetSource() {
+			if p.GetSource() == q.GetSource() && p.RemoteID() == q.RemoteID() {
 				continue
 			}
 			n = append(n, q)
@@ -68,7 +68,7 @@ func (r ribout) update(p *table.Path) bool {
 
 	doAppend := true
 	for idx, q := range l {
-		if p.GetSource() == q.GetSource() {
+		if p.GetSource() == q.GetSource() && p.RemoteID() == q.RemoteID() {
 			// if we have sent the same path, don't send it again
 			if p.Equal(q) {
 				return false
@@ -250,6 +250,13 @@ func (b *bmpClient) loop() {
 							var pathList []*table.Path
 							if msg.Init {
 								pathList = msg.PathList
+								if msg.PostPolicy {
+									// what the initial dump reports is known to the
+									// station: later withdrawals must get through.
+									for _, p := range pathList {
+										b.ribout.update(p)
+									}
+								}
 							} else {
 								for _, p := range msg.PathList {
 									if b.ribout.update(p) {
